@@ -88,10 +88,15 @@ def gen_doc(r):
     footer_lines = [l.strip() for l in footer.split("\n") if l.strip()]
     d = header + "\n\n" + render_section(r, ir, style, with_types=not (minimal and r.random() < 0.6)) + ("\n\n" + footer if footer else "") + ("" if minimal else r.choice(["", "\n"]))
     ind = r.choice([0, 4, 4, 8]) if minimal else r.choice([0, 4, 8])
+    # "blank" separator lines that are not empty: they keep the indentation whitespace (what the project's own emitter writes at
+    # indent_level >= 1) or, at indentation 0, carry a few stray blanks
+    blank_ws = r.random() < 0.4
+    if blank_ws and not ind:
+        d = "\n".join((l if l or r.random() < 0.5 else "    ") for l in d.split("\n"))
     if ind:
-        d = "\n" + "\n".join((" " * ind + l) if l else l for l in d.split("\n")) + r.choice(["", "" if minimal else "\n" + " " * ind])
+        d = "\n" + "\n".join((" " * ind + l) if (l or blank_ws) else l for l in d.split("\n")) + r.choice(["", "" if minimal else "\n" + " " * ind])
     return {"doc": d, "style": style, "indent": ind, "header_lines": header_lines, "footer_lines": footer_lines, "has_footer": bool(footer),
-            "has_return": bool(ir.get("returns")), "nparams": len(ir["params"]), "names": list(ir["params"]), "kw": kw}
+            "has_return": bool(ir.get("returns")), "nparams": len(ir["params"]), "names": list(ir["params"]), "kw": kw, "blank_ws": blank_ws}
 
 
 def impl_split(case):
@@ -166,12 +171,15 @@ def impl_convert(g):
 
 
 def in_order(lines, text):
-    pos = 0
+    """first of `lines` that is not found, in order, AS A LINE of `text` (compared without surrounding blanks): a header line that has been
+    fused with another line is no longer present as a line"""
+    out_lines = [x.strip() for x in text.split("\n")]
+    idx = 0
     for l in lines:
-        k = text.find(l.strip(), pos)
-        if k < 0:
+        try:
+            idx = out_lines.index(l.strip(), idx) + 1
+        except ValueError:
             return l
-        pos = k + len(l.strip())
     return None
 
 
@@ -244,6 +252,8 @@ def run(chk: core.Check) -> int:
         dist[key] = dist.get(key, 0) + 1
         chk.count(("doc", g["doc"]), True)
         base_sig = {"style": g["style"], "indented": g["indent"] > 0, "has_footer": g["has_footer"], "kw": g["kw"]}
+        ws = {"blank_ws": True} if g.get("blank_ws") else {}  # root-cause marker: separator lines that are blank but not empty
+        base_sig.update(ws)
         if sp and not sp.get("timeout") and not sp.get("skipped"):
             if "raises" in sp["haf"]:
                 chk.failure({"kind": "split-raises", **base_sig, "exc": sp["haf"]["raises"]}, "parse_docstring_into_header_args_footer raises %s" % sp["haf"]["raises"],
@@ -258,7 +268,7 @@ def run(chk: core.Check) -> int:
                     miss = in_order(g["header_lines"], h) if sp.get("idx") and isinstance(sp["idx"], list) and sp["idx"][0] > -1 else None
                     if miss is not None:
                         chk.failure(({"kind": "header-line-not-in-header-part", **base_sig} if g["kw"] is None else
-                                     {"kind": "header-line-not-in-header-part", "kw": g["kw"], "style": g["style"], "indented": g["indent"] > 0}), "header line %r is not inside the header part" % miss, {"fn": "split", "doc": g["doc"]})
+                                     {"kind": "header-line-not-in-header-part", "kw": g["kw"], "style": g["style"], "indented": g["indent"] > 0, **ws}), "header line %r is not inside the header part" % miss, {"fn": "split", "doc": g["doc"]})
         if cv and not cv.get("timeout") and not cv.get("skipped") and "fields" in cv:
             for tgt in STYLES + tuple("fn_" + t for t in STYLES):
                 out = cv["outs"].get(tgt)
@@ -267,13 +277,13 @@ def run(chk: core.Check) -> int:
                 miss = in_order(g["header_lines"], out)
                 if miss is not None:
                     chk.failure(({"kind": "header-line-lost", **base_sig, "target": tgt} if g["kw"] is None else
-                                 {"kind": "header-line-lost", "kw": g["kw"], "style": g["style"], "path": "fn" if tgt.startswith("fn_") else "doc", "indented": g["indent"] > 0}), "converting %s → %s loses header line %r" % (g["style"], tgt, miss),
+                                 {"kind": "header-line-lost", "kw": g["kw"], "style": g["style"], "path": "fn" if tgt.startswith("fn_") else "doc", "indented": g["indent"] > 0, **ws}), "converting %s → %s loses header line %r" % (g["style"], tgt, miss),
                                 {"fn": "convert", "gen": g, "target": tgt})
             for n, k, v in cv["fields"]:
                 for l in g["header_lines"] + g["footer_lines"]:
                     if l.strip() and l.strip() in v:
                         chk.failure({"kind": "prose-absorbed", "style": g["style"], "field": k, "entry": "return" if n == "return_type" else "param", "kw": g["kw"],
-                                     "prose": "footer" if l.strip() in [x.strip() for x in g["footer_lines"]] else "header"},
+                                     "prose": "footer" if l.strip() in [x.strip() for x in g["footer_lines"]] else "header", **ws},
                                     "prose line %r absorbed into %s.%s = %r" % (l.strip(), n, k, v[:120]), {"fn": "convert", "gen": g})
                         break
     chk.coverage["generated_docs_by_shape"] = dist
